@@ -80,13 +80,20 @@ int main(void)
                 Target('lstep_ctor3', [Fn('lstep_ctor3', 'src/solver/lstep.cpp', 'lsearch_step_t', flt='lsearch_step_t::lsearch_step_t', kinds=('CXXConstructorDecl',),
                                           select=lambda d: len(astload.param_types(d)) == 3 and all('solver_state_t' not in t for t in astload.param_types(d)),
                                           **dict(ls_common, self_struct='struct nv_lstep'))], 'specs/C07/lstep.h')]
+    # interpolate selects between the kernels as documented (IEEE isfinite); kernels = ghost-recording stubs
+    sel_common = dict(COMMON, self_struct=None, calls=[(r'^cubic\|', 'nv_cubic_g({&0}, {&1})'), (r'^quadratic\|', 'nv_quadratic_g({&0}, {&1})'),
+                                                        (r'^bisection\|', 'nv_bisection_g({&0}, {&1})')] + CALLS)
+    targets += [Target('lstep_interpolate_select', [Fn('lstep_interpolate_sel', 'src/solver/lstep.cpp', 'interpolate', flt='lsearch_step_t::', **sel_common)],
+                       'specs/C07/lstep_sel.h')]
     import pred_smt
     import step_smt
     import adv_smt
-    # the three groups of SMT obligations are built concurrently (each runs clang on its own translation units)
+    import interp_smt
+    import mt_smt
+    # the groups of SMT obligations are built concurrently (each runs clang on its own translation units)
     from concurrent.futures import ThreadPoolExecutor
-    with ThreadPoolExecutor(max_workers=3) as ex:
-        parts = [f.result() for f in [ex.submit(pred_smt.build), ex.submit(step_smt.build), ex.submit(adv_smt.build)]]
+    with ThreadPoolExecutor(max_workers=5) as ex:
+        parts = [f.result() for f in [ex.submit(pred_smt.build), ex.submit(step_smt.build), ex.submit(adv_smt.build), ex.submit(interp_smt.build), ex.submit(mt_smt.build, tier)]]
     vcs = [v for pv, _ in parts for v in pv]
     fns = [f for _, pf in parts for f in pf]
     return {
@@ -99,19 +106,35 @@ int main(void)
                     'lsearch_step_t::interpolate returns a finite value or else the bisection point 0.5*(u.t+v.t) for every mode; bisection and the (t, f, g) constructor equal their definitions',
                     'More-Thuente do_get (+ dcstep): success => the state is the valid evaluation at the returned step, the value / slope read by the convergence test are those of the current trial state, <= max_iterations evaluations, the loop terminates; its convergence exit implies Armijo + strong Wolfe (over the reals)',
                     'CG_DESCENT: interval_t constructor / updateA / updateB / done / converged, make_params, move, updateU, update, bracket and the move_update_and_check_done lambda under protocol contracts (tentative state = evaluation at interval.step_size; done() true => criterion pair evaluated true on the tentative point or give-up; every evaluation but one per updateU / lambda call is paid by the shared budget); do_get composed from these contracts: success => state is the valid evaluation at the returned step, <= 7*max_iterations+1 evaluations, the loops terminate',
+                    'interpolation kernels, real bodies over the reals (interp/, double treated as real): lsearch_step_t::cubic returns a stationary point with second derivative >= 0 (the minimiser, N&W p.59) of EVERY cubic that matches both values and both slopes, wherever its two divisions and its sqrt are defined; quadratic returns the stationary point of every quadratic matching (f(u), f\'(u), f(v)) and *convexity <=> its leading coefficient is > 0; secant returns the zero of the affine interpolant of the two slopes; bisection returns the midpoint, between the two steps',
+                    'lsearch_step_t::interpolate SELECTS as documented, in IEEE semantics (lstep_interpolate_select, back end A, ghost-recording kernel stubs called on (u, v)): cubic mode -> the cubic step if finite, else the quadratic step if finite, else the bisection point; quadratic mode -> quadratic if finite, else bisection; any other mode value -> bisection',
+                    'towards "on convex quadratics all succeed" (convexq/, over the reals): on two distinct samples (t, phi, phi\') of phi(t) = a t^2 + b t + c, a > 0, the kernels cubic, quadratic and secant execute no undefined division / sqrt (PROVED from a > 0 and distinct abscissae, not assumed) and return the exact minimiser -b/(2a); with b < 0, 0 < c1 <= 1/2, c2 >= 0 that step is > 0 and satisfies Armijo and strong Wolfe (hence Wolfe); hence interpolate in cubic / quadratic mode does. It does NOT hold for bisection (witness checked) and not for c1 > 1/2 (witness checked: the exact minimiser violates Armijo)',
+                    'More-Thuente step kernel dcstep (real body, its cubic / quadratic / secant calls inlined mechanically) equals MINPACK-2 dcstep over the reals (mt/dcstep, reference transcribed from the Fortran): the four cases and their choice rules between the cubic and the quadratic / secant step, the case-3 rule (cubic step only if it lies beyond stp, else stpmax / stpmin; closer one + safeguard stp + delta*(sty-stp) when bracketed; farther one clamped to [stpmin, stpmax] otherwise) for a positive and for a negative discriminant, case 4, the bracket update, brackt\' = brackt or case 1 or case 2, the frame; the divisions / sqrt the code executes are defined wherever the reference\'s are. Stated deviations: delta is a parameter (MINPACK: 0.66), no overflow scaling inside the sqrt, discriminant exactly 0 in case 3 (the code may keep the cubic step where MINPACK falls back to the bound: witness checked), no final clamp in dcstep (that is MINPACK-1 cstep; MINPACK-2 and the code clamp in the caller)',
+                    'More-Thuente do_get against MINPACK-2 dcsrch, one arbitrary iteration of the real loop body over the reals (mt/do_get): the START block; stage\' = 2 iff stage = 2 or (psi(stp) <= 0 and phi\'(stp) >= 0) with psi(t) = phi(t) - phi(0) - c1 t phi\'(0) (the code\'s `f <= ftest && g >= 0` IS that condition: an independently seeded change that drops the slope conjunct, seed C07-1, is refuted by mt/do_get/stage_at_interpolation); dcstep is called exactly once per continuing iteration, on the modified function (f - stp*gtest, g - gtest, ...) exactly when stage\' = 1, psi(stp) > 0 and f <= fx, on phi otherwise, with [stmin, stmax] and delta; the bracket values are mapped back afterwards; bisection when the bracket did not shrink by 0.66, width / width1, stmin / stmax (1.1 / 4 extrapolation), clamp to [stpmin, stpmax], fallback to stx: the evaluated step is the reference\'s. Stated deviations: give-up exits return failure (not a warning with a usable step), `>=` / `<=` for `==` at the bounds, convergence tested first',
+                    'More-Thuente on a convex quadratic, loop level (mt/do_get/convexq_second_trial, real loop body, dcstep through its proved clauses mt/dcstep/contract_*): in the FIRST iteration, if t0 does not pass the convergence test and overshoots (dcstep case 1 or 2), the minimiser of the interpolated function (phi, or the modified function) lies in [stpmin, stpmax], t0 < 1.32 (stpmax - stpmin) and epsilon0 < 1, then the step evaluated next is EXACTLY that minimiser (no bisection, no clamp, no fallback to stx interferes); by convexq/dcstep_phi|psi/armijo_strong_wolfe it passes the convergence test at the top of the second iteration (needs max_iterations >= 2 and a valid evaluation)',
+                    'backtracking, LeMarechal, Fletcher zoom and Fletcher\'s bracketing phase on a convex quadratic, loop level (convexq/backtrack_do_get, convexq/lemarechal_do_get, convexq/fletcher_zoom, convexq/fletcher_do_get: the real loop bodies, every evaluation returns phi, "every lsearch_step_t the search keeps is a sample (t, phi(t), phi\'(t))" is an inductive invariant of the real code): at EVERY `clamp(interpolate(u, v, mode), lo, hi)` site, in cubic or quadratic mode, the two steps are distinct and, if the exact minimiser lies inside [lo, hi], the step evaluated next IS the exact minimiser; at that trial state Armijo (for c1 <= 1/2) and strong Wolfe (hence Wolfe) hold, which is what the acceptance test of the next iteration (backtracking, LeMarechal, Fletcher) or of the same iteration (zoom) evaluates; interpolate enters through its clause convexq/interpolate/exact (cubic / quadratic mode on two distinct samples of a convex quadratic returns the exact minimiser)',
+                    'dcstep on a convex quadratic (convexq/dcstep_phi, convexq/dcstep_psi): handed samples of phi, or of the modified function (also a convex quadratic, linear coefficient (1-c1) b), cases 1 and 2 return the exact minimiser of the sampled quadratic, case 3 returns it unless a bound or the safeguard cuts it, case 4 cannot occur; that step is > 0 and passes the convergence test of More-Thuente (Armijo + strong Wolfe for phi): for samples of phi when c1 <= 1/2, for samples of the modified function for EVERY 0 < c1 < c2 < 1 (phi\' there is c1*b)',
                     'More-Thuente and CG_DESCENT: success => the advertised conditions hold on the returned point -- More-Thuente: Armijo + strong Wolfe as formulas over the value and slope of the returned state (every return site, over the reals); CG_DESCENT: success is interval_t::converged(), i.e. valid state and (Armijo, Wolfe) or (approximate Armijo, approximate Wolfe) evaluated true on the returned state with the returned step (both were refuted before the repairs 297525f / e2bae93, see known_findings.txt)'],
-        'not_decided': ['success on convex quadratics (needs the numerics of interpolation)',
-                        'More-Thuente: positivity of the returned step (the fallback `stp = stx` may hand back the origin; excluding it needs the numerics of dcstep) and which of the two interpolation stages is active (the stage switch only selects the arguments of dcstep: no protocol-level consequence)',
+        'not_decided': ['success on convex quadratics as a statement about the whole searches: decided are the single interpolation steps (exact minimiser, which passes Armijo for c1 <= 1/2 / strong Wolfe; dcstep cases 1-3) and, for More-Thuente, the two-evaluation scenario after an overshooting first trial; an undershooting first trial (dcstep case 3: extrapolation by at most stmax = stp + 4 (stp - stx) per iteration) needs about log_5(t*/t0) further iterations, so success depends on max_iterations (with max_iterations = 1 no interpolated point is ever tested: the last evaluated point of every search is returned as a failure without being tested); NOT decided: that the safeguards around them (clamp to [safeguard*t, (1-safeguard)*t] in backtracking / LeMarechal / Fletcher: when the clamp cuts the exact step the search goes on with a cut step, not decided further; bisection mode is not exact at all), extrapolation by tau1 / 3, bisection + [stmin, stmax] + clamp + fallback in More-Thuente, the theta rule and the secant^2 step of CG_DESCENT) leave the exact step alone or converge within max_iterations anyway; for c1 > 1/2 the exact minimiser violates Armijo, so success there needs further iterations',
+                        'dcstep: inputs with dx = 0 (sgnd = dp*(dx/|dx|) is NaN in IEEE: no real-model meaning), inputs where the reference\'s own quantities are undefined (stp = stx, zero denominators), and case 3 with a discriminant of exactly 0 (deviation, see decided)',
+                        'More-Thuente: positivity of the returned step (the fallback `stp = stx` may hand back the origin; excluding it needs the numerics of dcstep)',
                         'CG_DESCENT: positivity of the returned step (secant / theta-combination numerics); its finiteness follows only by composition (success = converged() => valid tentative state at interval.step_size) because do_get is composed over the reals',
                         'finiteness proper: over the reals every value is finite; overflow of 0.5*(u.t+v.t) and NaN bracket ends are outside the real model'],
         'assumptions': ['solver_state_t::update(x) makes the state the single evaluation at x (assumed contract)',
                         'a valid trial state has a finite step: solver_state_t::valid() demands an all-finite point and every coordinate of x0 + t*d is non-finite for a non-finite t (the scalar IEEE fact is proved: ieee_point_lemma; its lifting to Eigen vectors is assumed)',
                         'parameters lie in their registered domains (0<c1<c2<1, 1<=max_iterations<=10000, tau1>2, 0<safeguard<0.5, 0<tau2<tau3<=0.5, 0<delta<1, 0<theta<1, ro>1, 0<gamma<1, epsilon>0)',
-                        'lsearch_step_t::cubic / quadratic / secant return an arbitrary double (havoc); in the protocol targets of back end A lsearch_step_t::interpolate is an arbitrary double as well',
+                        'in the protocol targets of back end A and in steps/, advertised/, mt/do_get the interpolation results (cubic / quadratic / secant / interpolate / dcstep outputs) are arbitrary values (havoc: those claims hold for every interpolation result); what the kernels compute is under interp/, mt/dcstep, lstep_interpolate_select',
                         'IEEE double treated as real in the pred/, steps/ and advertised/ obligations (back end B); std::isfinite is true there; machine epsilon = 2^-52; epsilon0 / epsilon1 are some positive constants',
                         'Eigen dot product is an opaque symmetric real function of its two operands',
                         'back end B uses the contracts of lsearchk_t::update, fletcher zoom, interval_t::done, interval_t::converged, bracket, move_update_and_check_done, make_params and the interval_t constructor in the form proved by back end A (restated as SMT in step_smt.py / adv_smt.py: the correspondence of the two statements is by inspection)',
                         'More-Thuente over the reals: dcstep overwrites its eight by-reference results with arbitrary values (its real body is under the back-end-A target morethuente_do_get)',
+                        'interp/, convexq/, mt/: IEEE double treated as real; std::sqrt is an uninterpreted function with sqrt(x) >= 0 and sqrt(x)^2 = x for x >= 0 (instantiated on the applications that occur, Ackermann congruence between them) and no property for x < 0; a quotient x/d is named by a constant q with `d = 0 or q*d = x` (nothing is known about x/0); every claim about a kernel is conditional on "its divisions / sqrt are defined" unless it proves that',
+                        'mt/dcstep: std::isfinite(x) of a value returned by an interpolation kernel is modelled as "the kernel\'s divisions and sqrt are defined" (IEEE: an undefined operation yields NaN / inf, which propagates to the result except in cancellation corner cases such as x/inf), of any other value as true',
+                        'the reference algorithm (MINPACK-2 dcsrch / dcstep, More & Thuente 1994) is transcribed by hand from the Fortran text into mt_smt.py (reference(), do_get_reference(), do_get_next()) without the overflow scaling s = max(|theta|, |dx|, |dp|); the Fortran constants 0.66d0 and 1.1d0 are the same IEEE doubles as the C++ literals',
+                        'mt/do_get/convexq_second_trial assumes on the arbitrary results of the dcstep call exactly the clauses proved for the real dcstep as mt/dcstep/contract_bracket / contract_brackt / contract_quadratic (one python function, contract_clauses, generates the proved and the assumed form); scenario hypotheses: epsilon0 < 1 and t0 < 1.32 (stpmax - stpmin)',
+                        'mt/dcstep case*_step is a cut: kernel lemmas at the call sites + the choice rule over opaque kernel results (textual replacement of the inlined kernel terms by constants); the composition (substitute the kernel term for the constant) is by construction; the monolithic equalities are checked in the thorough tier (case*_step_monolithic)',
+                        'convexq/interpolate/exact restates the selection proved by lstep_interpolate_select (back end A, IEEE) over the reals with isfinite(kernel result) := "the kernel is defined" and applies it to the extracted kernel terms (correspondence of the two statements of the selection: by inspection); the loop-level scenarios convexq/<search> assume that clause on the arbitrary result of interpolate (same python function interpolate_clause for the proved and the assumed form), use has_armijo / has_wolfe / has_strong_wolfe as the formulas proved in pred/, and model "the objective is the quadratic" by letting lsearchk_t::update return phi(t), phi\'(t)',
+                        'mt/do_get looks at ONE arbitrary iteration from an arbitrary loop-head state with stage in {1, 2} (inductive invariant) and at the prefix; the give-up / convergence exits are not compared with dcsrch beyond what advertised/morethuente_do_get proves',
                         'the ghost records of the approximate predicates (nv_cgd) are not part of the frame of the virtual do_get contract used by lsearchk_t::get (they are specification-only objects)'],
         'trusted': [],
     }
